@@ -371,8 +371,20 @@ Record rcase := {
    5 a client socket was left open; 6 the counter did not return to zero; 7 a request sent after the
    cancel was served; 8 Run returned early although an idle connection was never closed by its client
    nor woken by a request (must wait for the timeout); 9 idle upstream connections were not closed *)
+(* the drain's deadline as data (None = no limit).  What shutdownContext does, by its extracted shape
+   (`if cfg.ShutdownTimeout > 0 { ctx = WithTimeout(ctx, ShutdownTimeout) }`): *)
+Definition drain_deadline (timeout : Z) : option Z :=
+  if shutdown_timeout_guarded then (if 0 <? timeout then Some timeout else None) else Some timeout.
+(* ... and what is documented ("zero means no limit"), which the oracle uses *)
+Definition spec_drain_deadline (timeout : Z) : option Z := if 0 <? timeout then Some timeout else None.
+(* the two agree exactly when the guard is there (obligation ob_shutdown_context) *)
+Lemma drain_deadline_is_spec : shutdown_timeout_guarded = true -> forall t, drain_deadline t = spec_drain_deadline t.
+Proof. intros H t. unfold drain_deadline. rewrite H. reflexivity. Qed.
+
 Definition rcase_codes (r : rcase) : list N :=
   (* the drain ends at the timeout or when a further signal cancels the shutdown context, whichever is first *)
+  (* a shutdown timeout of zero (or less) means NO limit: the deadline is data, None = wait for the drain *)
+  let r_timeout := fun r => match spec_drain_deadline (r_timeout r) with Some t => t | None => 1000000000 end in
   let r_timeout := fun r => if (0 <=? r_cancel_at r) && (r_cancel_at r <? r_timeout r) then r_cancel_at r else r_timeout r in
   let drains := r_inflight r && (0 <=? r_origin_answers r) && (r_origin_answers r + r_tol r <? r_timeout r) in
   let blocked := (r_idle_conn r && negb (r_late_sent r)) || (r_inflight r && negb drains) in
@@ -384,7 +396,9 @@ Definition rcase_codes (r : rcase) : list N :=
   (if r_final_cnt r =? 0 then [] else [6%N]) ++
   (if r_late_served r then [7%N] else []) ++
   (if blocked && (r_elapsed r <? r_timeout r - r_tol r) then [8%N] else []) ++
-  (if r_upstream_closed r || r_inflight r then [] else [9%N]).
+  (if r_upstream_closed r || r_inflight r then [] else [9%N]) ++
+  (* 10: Run returned before an exchange that the drain had to wait for was answered *)
+  (if drains && (r_elapsed r <? r_origin_answers r - r_tol r) then [10%N] else []).
 Definition rcase_prop_ok (r : rcase) : bool := match rcase_codes r with [] => true | _ => false end.
 
 (* ---------- a request first sent after shutdown began, inside an established session of a proxy
